@@ -35,8 +35,10 @@ type Decision struct {
 	Below uint64   `json:"below,omitempty"`
 	Len   int      `json:"len,omitempty"`
 	Reqs  []uint64 `json:"reqs,omitempty"`
-	NL    int      `json:"nl,omitempty"`    // src: number of latest-header requests pending when it happened
-	Burst bool     `json:"burst,omitempty"` // resp: do not wait for the node to settle first
+	NL    int      `json:"nl,omitempty"` // src: number of latest-header requests pending when it happened
+	// resp/block, production data source only: the first class download this answer leads to fails
+	ClassErr bool `json:"class_err,omitempty"`
+	Burst    bool `json:"burst,omitempty"` // resp: do not wait for the node to settle first
 }
 
 type Scenario struct {
@@ -50,7 +52,15 @@ type Scenario struct {
 	MaxFaults int               `json:"max_faults"`
 	Restarts  int               `json:"restarts,omitempty"` // random mode: the node may be stopped and restarted this often
 	Shapes    map[string]string `json:"shapes,omitempty"`   // tag -> block shape, overriding the default (see shapeNames)
-	Steps     int               `json:"steps"`
+	Classes   []ClassSpec       `json:"classes,omitempty"`  // classes mentioned by several blocks (see ClassSpec)
+	// Prod: the Synchronizer is given the REAL sync.NewFeederGatewayDataSource over this run as a scripted
+	// feeder (starknetdata.StarknetData) instead of this run as a scripted DataSource: which classes are
+	// downloaded for a block is then decided by the code under test from the node's own state
+	Prod bool `json:"prod,omitempty"`
+	// Lenient: the decisions come from a behaviour of the specification (TLC simulation); the real node need
+	// not offer the same requests in the same order: a decision that finds no taker is skipped after a short wait
+	Lenient bool `json:"lenient,omitempty"`
+	Steps   int  `json:"steps"`
 }
 
 type request struct {
@@ -60,6 +70,7 @@ type request struct {
 	ctx   context.Context
 	v0    int
 	reply chan reply
+	call  *bbnCall // production data source: the BlockByNumber call this feeder request belongs to
 }
 
 type reply struct {
@@ -79,7 +90,8 @@ type delivery struct {
 	resolved      bool
 	outcome       string
 	accounted     bool
-	loop          bool // consumed by revertTask (requested height was already in the chain): never resolves
+	loop          bool  // consumed by revertTask (requested height was already in the chain): never resolves
+	nc            []int // ids of the classes in the NewClasses of the CommittedBlock
 }
 
 var (
@@ -118,7 +130,10 @@ type run struct {
 	extra     []finding    // findings of the concurrent reader / the retained-value checks / the database re-verification
 	servedOK  map[int]bool // tags that were served honestly to the fetch pipeline (random mode: re-fetch adversary)
 	live      *liveNode
-	exited    atomic.Bool // Run returned although nobody stopped the node
+	exited    atomic.Bool  // Run returned although nobody stopped the node
+	refusals  int          // Store refused the honest successor of the head this often
+	classGone map[int]bool // classes whose definition a revert has removed in this run
+	cstats    map[string]int
 }
 
 func (r *run) log(ev vh.J) int {
@@ -130,14 +145,14 @@ func (r *run) log(ev vh.J) int {
 
 // ---------------------------------------------------------------- DataSource (the gates)
 
-func (r *run) enter(kind string, h uint64, ctx context.Context) *request {
+func (r *run) enter(kind string, h uint64, ctx context.Context, call *bbnCall) *request {
 	r.mu.Lock()
 	defer r.mu.Unlock()
 	if r.closed {
 		return nil
 	}
 	r.nextRid++
-	rq := &request{rid: r.nextRid, kind: kind, h: h, ctx: ctx, v0: r.curVer, reply: make(chan reply, 1)}
+	rq := &request{rid: r.nextRid, kind: kind, h: h, ctx: ctx, v0: r.curVer, reply: make(chan reply, 1), call: call}
 	if kind == "block" {
 		r.log(vh.J{"ev": "Req", "rid": rq.rid, "h": int(h)})
 	} else {
@@ -148,7 +163,7 @@ func (r *run) enter(kind string, h uint64, ctx context.Context) *request {
 }
 
 func (r *run) BlockByNumber(ctx context.Context, n uint64) (jsync.CommittedBlock, error) {
-	rq := r.enter("block", n, ctx)
+	rq := r.enter("block", n, ctx, nil)
 	if rq == nil {
 		return jsync.CommittedBlock{}, errClosed
 	}
@@ -161,7 +176,7 @@ func (r *run) BlockByNumber(ctx context.Context, n uint64) (jsync.CommittedBlock
 }
 
 func (r *run) BlockHeaderLatest(ctx context.Context) (*core.Header, error) {
-	rq := r.enter("latest", 0, ctx)
+	rq := r.enter("latest", 0, ctx, nil)
 	if rq == nil {
 		return nil, errClosed
 	}
@@ -210,21 +225,47 @@ func (r *run) scanOutcomes() {
 		case err := <-d.persisted:
 			d.resolved = true
 			d.outcome = classify(err)
-			r.log(vh.J{"ev": "Obs", "rid": d.rid, "h": int(d.h), "bh": int(d.bh), "r": d.r, "tag": d.tag, "outcome": d.outcome})
+			ev := vh.J{"ev": "Obs", "rid": d.rid, "h": int(d.h), "bh": int(d.bh), "r": d.r, "tag": d.tag, "outcome": d.outcome}
+			if d.outcome == "error" && d.r == "ok" && int(d.bh) == len(r.shadow) && r.w.blocks[d.tag].parent == r.headTag() {
+				// Store refused the honest successor of the head (no write can have happened since: outcomes are
+				// scanned before every Stored / Reverted is recorded)
+				ev["refused"], ev["err"] = true, firstLine(err.Error())
+				r.refusals++
+			}
+			r.log(ev)
 		default:
 		}
 	}
 }
 
+func (r *run) headTag() int {
+	if len(r.shadow) == 0 {
+		return 0
+	}
+	return r.shadow[len(r.shadow)-1]
+}
+
 func (r *run) onStored(n uint64) {
 	hdr, herr := r.node.BC.HeadsHeader()
 	problems := r.reverify(n)
+	var cprob []string
+	if herr == nil {
+		if tag, ok := r.w.byHash[*hdr.Hash]; ok {
+			r.mu.Lock()
+			chain := append(append([]int{}, r.shadow...), tag)
+			r.mu.Unlock()
+			if int(n) == len(chain)-1 {
+				cprob = r.classProblems(chain)
+			}
+		}
+	}
 	r.mu.Lock()
 	defer r.mu.Unlock()
 	if r.closed {
 		r.lateWrite++
 		return
 	}
+	r.addClassFindings(cprob, fmt.Sprintf("after block %d was stored", n))
 	if len(problems) > 0 {
 		key := "sync:stored-block-fails-reverification:" + problems[0][:strings.IndexByte(problems[0], ':')]
 		dup := false
@@ -320,12 +361,28 @@ func (r *run) reverify(n uint64) (problems []string) {
 
 func (r *run) onReverted(n uint64) {
 	height, herr := r.node.BC.Height()
+	var cprob []string
+	r.mu.Lock()
+	chain := append([]int{}, r.shadow...)
+	r.mu.Unlock()
+	if len(chain) > 0 && int(n) == len(chain)-1 && ((n == 0 && herr != nil) || (n > 0 && herr == nil && height == n-1)) {
+		before, after := r.w.expectedDefs(chain), r.w.expectedDefs(chain[:len(chain)-1])
+		cprob = r.classProblems(chain[:len(chain)-1])
+		r.mu.Lock()
+		for id := range before {
+			if _, still := after[id]; !still {
+				r.classGone[id] = true
+			}
+		}
+		r.mu.Unlock()
+	}
 	r.mu.Lock()
 	defer r.mu.Unlock()
 	if r.closed {
 		r.lateWrite++
 		return
 	}
+	r.addClassFindings(cprob, fmt.Sprintf("after block %d was reverted", n))
 	r.scanOutcomes()
 	ev := vh.J{"ev": "Reverted", "h": int(n), "tag": -1, "headok": false}
 	if herr == nil && height == n {
@@ -414,7 +471,7 @@ func (r *run) release(rq *request, d Decision) {
 	}
 	var rp reply
 	if rq.kind == "block" {
-		ev := vh.J{"ev": "Resp", "rid": rq.rid, "h": int(rq.h), "r": d.R, "ver": 0, "tag": 0, "corr": "none"}
+		ev := vh.J{"ev": "Resp", "rid": rq.rid, "h": int(rq.h), "r": d.R, "ver": 0, "tag": 0, "corr": "none", "nc": []int{}, "src": "script"}
 		switch d.R {
 		case "err":
 			rp.err = errInjected
@@ -460,10 +517,19 @@ func (r *run) release(rq *request, d Decision) {
 			}
 			rp.cb = r.w.committed(tag, corr)
 			ev["r"], ev["ver"], ev["tag"], ev["bh"], ev["corr"], ev["kind"] = d.R, d.Ver, tag, int(bh), specCorr(corr), corr
-			dl := &delivery{rid: rq.rid, tag: tag, ver: d.Ver, h: rq.h, bh: bh, r: d.R, corr: corr, persisted: rp.cb.Persisted,
+			dl := &delivery{rid: rq.rid, tag: tag, ver: d.Ver, h: rq.h, bh: bh, r: d.R, corr: corr,
 				loop: int(rq.h) < len(r.shadow)}
-			dl.seq = r.log(ev)
 			r.deliv = append(r.deliv, dl)
+			if rq.call != nil {
+				// production data source: this is only the feeder's answer; the Resp event is recorded when the
+				// real BlockByNumber returns, with the NewClasses it computed (see tap.returned)
+				rq.call.ev, rq.call.dl, rq.call.classErr = ev, dl, d.ClassErr
+				rq.reply <- rp
+				return
+			}
+			dl.persisted, dl.nc = rp.cb.Persisted, r.w.mentions(tag)
+			ev["nc"], ev["src"] = dl.nc, "script"
+			dl.seq = r.log(ev)
 			rq.reply <- rp
 			return
 		}
@@ -571,6 +637,9 @@ func (r *run) randomAnswer(rq *request) Decision {
 			return Decision{R: "wh", Ver: ver, BH: bh}
 		case int(rq.h) >= len(r.cur()) && p < 0.5: // gone from the current chain: "not found" is free
 			return Decision{R: "err"}
+		}
+		if r.sc.Prod && budget && r.rng.Intn(10) == 0 {
+			return Decision{R: "ok", Ver: ver, ClassErr: true} // (a fault only if a class is downloaded at all)
 		}
 		return Decision{R: "ok", Ver: ver}
 	}
@@ -752,13 +821,16 @@ func (r *run) scriptPhase() bool {
 			if r.sc.Name != "" && len(r.sc.Decisions) > 12 { // a flattened recording: tolerate drift
 				wait = 250 * time.Millisecond
 			}
+			if r.sc.Lenient {
+				wait = 60 * time.Millisecond
+			}
 			rq := r.waitPending(func(x *request) bool {
 				return x.ctx.Err() == nil && x.kind == d.Kind && (d.Kind == "latest" || x.h == d.H)
 			}, wait, true)
 			if rq == nil {
 				misses++
 				r.note = fmt.Sprintf("script: no pending %s request h=%d (%d misses)", d.Kind, d.H, misses)
-				if misses >= 4 || wait > time.Second {
+				if misses >= r.maxMisses() || wait > time.Second {
 					return false
 				}
 				continue
@@ -767,17 +839,32 @@ func (r *run) scriptPhase() bool {
 				r.mu.Unlock()
 				r.note = fmt.Sprintf("script: answer %+v is not legal for request v0=%d", d, rq.v0)
 				misses++
-				if misses >= 4 || wait > time.Second {
+				if misses >= r.maxMisses() || wait > time.Second {
 					return false
 				}
 				continue
 			}
 			r.release(rq, d)
+			if r.sc.Lenient {
+				r.cstats["spec_behaviour_answers_applied"]++
+			}
 			r.mu.Unlock()
 		case "restart":
 			r.settle()
 			if !r.restartNode(d.Burst) {
 				return false
+			}
+		case "await": // a synchronisation point of a specification behaviour: the node's chain has d.Len blocks
+			deadline := time.Now().Add(150 * time.Millisecond)
+			for {
+				r.mu.Lock()
+				r.flushCancelled()
+				ok := len(r.shadow) >= d.Len
+				r.mu.Unlock()
+				if ok || time.Now().After(deadline) {
+					break
+				}
+				time.Sleep(100 * time.Microsecond)
 			}
 		default:
 			r.broken = "unknown decision " + d.Op
@@ -785,6 +872,13 @@ func (r *run) scriptPhase() bool {
 		}
 	}
 	return true
+}
+
+func (r *run) maxMisses() int {
+	if r.sc.Lenient {
+		return 10
+	}
+	return 4
 }
 
 func equalInts(a, b []int) bool {
@@ -824,6 +918,11 @@ func (r *run) stablePhase() bool {
 		rq := r.waitPending(anyReq, stallTimeout, false)
 		if rq == nil {
 			r.broken = "node stopped calling the source (stable phase)"
+			return false
+		}
+		r.scanOutcomes()
+		if r.refusals >= 8 { // Store keeps refusing the honest successor of the head: more answers will not help
+			r.mu.Unlock()
 			return false
 		}
 		if equalInts(r.shadow, r.cur()) && r.lastWrite == seenWrite && r.pipelineEmpty() {
